@@ -1,5 +1,6 @@
 import Wasp.Model.Wire
 import Wasp.Properties.C11
+import Wasp.Proofs.BrokerF
 /-!
 # C18 — no client input can crash the broker or stall other clients
 
@@ -22,38 +23,39 @@ Not modelled: memory exhaustion, a client that stops READING (the node's single 
 on that connection until its deadline) — partial for "stall".
 -/
 namespace Wasp.Wire
-open Wasp.Broker Wasp.Dist
+open Wasp.Broker Wasp.Dist Wasp.Broker.AgentF
 
 /-- sessions are registered under the id derived from their connection (what `connect` establishes) -/
 def RegWF (w : World) : Prop := ∀ i, ∀ s ∈ (w.node i).reg, s.id = "S" ++ s.conn
 
 theorem C18_alloc_bound (b : Bytes) (hb : ∀ x ∈ b, x < 256) (remlen used : Nat)
     (h : readRemLen 0 0 1 b = .ok remlen used) : remlen ≤ maxRemLen ∧ used ≤ 4 := by
-  sorry
+  have _ := hb
+  exact alloc_bound b remlen used h
 
 /-- processing bytes of connection c closes no other connection -/
 theorem C18_confined_closed (w : World) (hw : RegWF w) (c : String) (b : Bytes) :
     ∃ new, (rawBytes w c b).1.out = w.out ++ new ∧ ∀ e ∈ new, e.2 = Pkt.closed → e.1 = c := by
-  sorry
+  exact (ext_rawBytes w c b hw).2
 
 /-- … and ends no other session, on any node -/
 theorem C18_confined_sessions (w : World) (c : String) (b : Bytes) (i : Nat) (sid : String)
     (h : sid ∈ regIds (w.node i)) (hne : sid ≠ "S" ++ c) :
     sid ∈ regIds ((rawBytes w c b).1.node i) := by
-  sorry
+  exact keep_rawBytes w c b i sid hne h
 
 theorem C18_close_confined_closed (w : World) (hw : RegWF w) (c : String) :
     ∃ new, (closeFromClient w c).out = w.out ++ new ∧ ∀ e ∈ new, e.2 = Pkt.closed → e.1 = c := by
-  sorry
+  exact (ext_closeFromClient w c hw).2
 
 theorem C18_close_confined_sessions (w : World) (c : String) (i : Nat) (sid : String)
     (h : sid ∈ regIds (w.node i)) (hne : sid ≠ "S" ++ c) :
     sid ∈ regIds ((closeFromClient w c).node i) := by
-  sorry
+  exact keep_closeFromClient w c i sid hne h
 
 /-- the registration invariant is preserved by everything a byte stream can trigger -/
 theorem C18_regwf_raw (w : World) (hw : RegWF w) (c : String) (b : Bytes) : RegWF (rawBytes w c b).1 := by
-  sorry
+  exact (ext_rawBytes w c b hw).1
 
 /-- non-vacuity: the minimal process-killing packet of the unrepaired broker (QoS 1 PUBLISH with no room for the
     packet id) decodes to `panic`; a five-byte remaining length is `panic`; both end only that connection -/
